@@ -1,1 +1,29 @@
-From CG Require Import Spec.Sets.
+(* Props/C05.v — C05: results do not depend on the window used to ask for them.
+   Statements only. *)
+From CG Require Import Proofs.Defs Proofs.RefSpec Proofs.Stored Proofs.Clip.
+
+(* the reference semantics is window independent by construction: asking a nested window
+   gives exactly the clip of the wider answer *)
+Theorem C05_reference_local : forall env e a1 b1 a2 b2,
+  bnd_lo a1 <= bnd_lo a2 -> bnd_hi b2 <= bnd_hi b1 ->
+  expected env e a2 b2 = flat_map (clipW a2 b2) (expected env e a1 b1).
+Proof. exact expected_local. Qed.
+Print Assumptions C05_reference_local.
+
+Theorem C05_clip_compose : forall a1 b1 a2 b2 l,
+  bnd_lo a1 <= bnd_lo a2 -> bnd_hi b2 <= bnd_hi b1 ->
+  flat_map (clipW a2 b2) (flat_map (clipW a1 b1) l) = flat_map (clipW a2 b2) l.
+Proof. exact clip_all_local. Qed.
+Print Assumptions C05_clip_compose.
+
+(* stored timelines: a fetch returns every stored event meeting the window, whatever the window *)
+Theorem C05_stored_fetch_in : forall store a b rv x, sorted_key store = true ->
+  (In x (fetch_static store a b rv) <-> In x store /\ in_range a b x = true).
+Proof. exact fetch_static_in. Qed.
+Print Assumptions C05_stored_fetch_in.
+
+(* and a slice clips exactly those *)
+Theorem C05_slice_is_clip : forall m xs a b, sorted_start xs ->
+  inter_sweep [xs; [mkI a b Plain]] (emit_sel [m; true]) = flat_map (clipW a b) xs.
+Proof. exact clip_sweep_masks. Qed.
+Print Assumptions C05_slice_is_clip.
